@@ -904,7 +904,7 @@ pub fn units() -> Vec<Unit> {
     Unit {
         module: "Gen.MacRfFn",
         file: "lorawan-device/src/mac/mod.rs",
-        more_files: vec!["lorawan-device/src/radio.rs", "lorawan-device/src/region/constants.rs", "lorawan-encoding/src/types.rs"],
+        more_files: vec!["lorawan-device/src/radio.rs", "lorawan-device/src/region/mod.rs", "lorawan-device/src/region/constants.rs", "lorawan-encoding/src/types.rs"],
         imports: vec!["LoraVerif.Gen.Modulation", "LoraVerif.Gen.Region"],
         items: vec![
             ExternUnit("Gen.Modulation"),
@@ -924,6 +924,10 @@ pub fn units() -> Vec<Unit> {
             Fn("Mac::build_rf_config"),
             Fn("Mac::rx2_rf_config"),
             Fn("Mac::get_rxc_config"),
+            // both windows of an uplink, from the channel selection actually used (`region::TxChannel`, region/mod.rs)
+            Struct("TxChannel"),
+            Struct("RxWindows"),
+            Fn("Mac::rx_windows"),
         ],
     },
     ]
